@@ -283,3 +283,111 @@ Example compile_correct_example :
   /\ exists w', Lang.call_fun logio ex_policy true 20 "main" ex_args (world0 0 [] (action_ctx "main"))
                 = OVal (V_Option (Some (V_Struct (mkStruct "S0" [("a", V_Int 1%Z); ("b", V_Bool false)])))) w'.
 Proof. split; [vm_compute; reflexivity|]. split; [vm_compute; reflexivity|]. eexists. vm_compute. reflexivity. Qed.
+
+(** * C23: untaken operands and branches are never evaluated *)
+Definition untaken_not_executed_stmt : Prop :=
+  forall (St : Type) (dbg : bool) (lio : lang_io St) (p : policy) (is_debug : bool),
+    layout_check p is_debug = true -> globals_ok p = true ->
+    let m := machine_of p is_debug in
+    forall (n : nat) (cs : list N) (outer : scope_t) (base : list Value) (qi : list (Fact * list query_item)) (has_sp : bool),
+      untaken_frame_stmt dbg lio p is_debug m (label_addr (labels m)) n cs outer base qi has_sp.
+
+Lemma untaken_not_executed_proof : untaken_not_executed_stmt.
+Proof.
+  intros St dbg lio p is_debug Hl Hg m n cs outer base qi has_sp.
+  destruct (layout_check_sound p is_debug Hl) as (Hlen & Hrep & Hf & Hff). fold m in Hlen, Hrep, Hf, Hff.
+  assert (Hcm : codemap m = None) by (unfold m, machine_of; destruct (compile_direct p is_debug); reflexivity).
+  assert (Hgl : forall x, option_map const_to_value (amap_get x (globals m)) = amap_get x (globals_of p))
+    by (intros x; apply machine_globals; exact Hg).
+  assert (Hsd : forall n, struct_def m n = option_map (fun fs => mkStructDef n (map field_of fs)) (struct_fields_of p n))
+    by (intros k; apply machine_struct_defs).
+  apply untaken_frame_proof; auto.
+Qed.
+
+(** Non-vacuity of C23: [false && todo()] - the hypotheses of the first clause hold at pc 2 of the
+    compiled function, whose call returns [false] although the right operand would panic. *)
+Definition ex23_policy : policy :=
+  mkPolicy [] [] [] [] [] [mkFun "main" [] TK_Bool (SCons (SReturn (EAnd (EBool false) ETodo)) SNil)] [] [] [] [].
+Example untaken_example :
+  layout_check ex23_policy true = true /\ globals_ok ex23_policy = true
+  /\ fr_expr (EBool false) = true
+  /\ at_pc (machine_of ex23_policy true) 2
+           (d_expr ex23_policy true (label_addr (labels (machine_of ex23_policy true))) "" false 2 (EAnd (EBool false) ETodo))
+  /\ (forall w : world lst,
+        eval_expr logio ex23_policy true (call_fun logio ex23_policy true 3) (call_fin logio ex23_policy true 3)
+                  (@no_recall lst) ER_Normal [ [] ] w (EBool false) = OVal (V_Bool false) w)
+  /\ (forall w : world lst, call_fun logio ex23_policy true 3 "main" [] w = OVal (V_Bool false) w).
+Proof.
+  split; [vm_compute; reflexivity|]. split; [reflexivity|]. split; [reflexivity|].
+  split; [apply code_at_b_sound; vm_compute; reflexivity|]. split; intros w; reflexivity.
+Qed.
+
+(** * C24: policies the compiler accepts do not go wrong *)
+
+(** the machine errors an accepted policy must never produce *)
+Definition going_wrong (e : MachineErrorType) : bool :=
+  match e with
+  | ME_InvalidType _ _ _ | ME_UnresolvedTarget _ | ME_InvalidAddress _ | ME_StackUnderflow
+  | ME_NotDefined _ | ME_AlreadyDefined _ | ME_InvalidStructMember _ | ME_InvalidSchema _
+  | ME_BadState _ | ME_CallStack | ME_InvalidInstruction | ME_Bug _ => true
+  | _ => false
+  end.
+(** the I/O oracle reports only its own kind of error *)
+Definition oracle_errors_ok {St} (lio : lang_io St) : Prop :=
+  forall s mid pid args ctx e, snd (lio_ffi lio s mid pid args ctx) = RErr e -> going_wrong e = false.
+
+(** how a run may end: normally, with a failed check, a policy panic, a yield - or with an
+    error that is not one of the "going wrong" errors *)
+Definition ends_safely {St} (r : RunResult St) : Prop :=
+  match r with
+  | RunExited _ _ => True
+  | RunErrored e _ => going_wrong (err_type e) = false
+  | RunPanic _ | RunOutOfFuel _ => False
+  end.
+
+(** The full statement: for every accepted policy, every entry point, well-typed arguments and any
+    I/O answers.  [check_function_like] is the acceptance test of [Typing.v] for the entry function. *)
+Definition accepted_is_safe_full_stmt : Prop :=
+  forall (St : Type) (dbg : bool) (lio : lang_io St) (p : policy) (is_debug : bool),
+    compile p is_debug <> RErr E_Bug -> (exists out, compile p is_debug = ROk out) ->
+    oracle_errors_ok lio ->
+    let m := machine_of p is_debug in
+    forall (f : ident) (vs : list Value) (w : world St),
+      len vs <= STACK_SIZE ->
+      (exists d, find (fun d => String.eqb (fn_name d) f) (p_funs p) = Some d
+                 /\ List.length vs = List.length (fn_params d)
+                 /\ Forall2 (fun v pt => fits_type v (snd pt) = true) vs (fn_params d)) ->
+      runs_to dbg lio p m (entry_state (label_addr (labels m)) f vs w) ends_safely.
+
+(** What is proved: the run ends safely whenever the reference semantics is defined on the call
+    (its result is not [OWrong]); what the full statement needs in addition is type soundness of
+    [Typing.v] with respect to [Lang.v]: accepted and well-typed arguments => never [OWrong]. *)
+Definition accepted_is_safe_partial_stmt : Prop :=
+  forall (St : Type) (dbg : bool) (lio : lang_io St) (p : policy) (is_debug : bool),
+    layout_check p is_debug = true -> globals_ok p = true ->
+    let m := machine_of p is_debug in
+    forall (n : nat) (f : ident) (vs : list Value) (w : world St),
+      len vs <= STACK_SIZE ->
+      Lang.call_fun lio p is_debug n f vs w <> OWrong ->
+      Lang.call_fun lio p is_debug n f vs w <> OFuel ->
+      runs_to dbg lio p m (entry_state (label_addr (labels m)) f vs w)
+        (fun r => ends_safely r
+                  (* ... or the error the I/O oracle answered with is passed through *)
+                  \/ exists e w' e' s', Lang.call_fun lio p is_debug n f vs w = OErr e w'
+                                        /\ r = RunErrored e' s' /\ err_type e' = e).
+
+Lemma accepted_is_safe_partial_proof : accepted_is_safe_partial_stmt.
+Proof.
+  intros St dbg lio p is_debug Hl Hg m n f vs w Hvs Hnw Hnf.
+  pose proof (compile_correct_proof St dbg lio p is_debug Hl Hg n f vs w Hvs) as H. cbv zeta in H. fold m in H.
+  destruct (Lang.call_fun lio p is_debug n f vs w) as [v w'|v w'|r w'|e w'| |] eqn:E; try contradiction; try congruence.
+  - destruct H as [[k Hk]|[k Hk]]; exists k; intros j; left.
+    + destruct (Hk j) as (s' & -> & _). exact Logic.I.
+    + destruct (Hk j) as (e' & s' & -> & He). cbn. rewrite He. reflexivity.
+  - destruct H as [[k Hk]|[k Hk]]; exists k; intros j; left.
+    + destruct (Hk j) as (s' & -> & _). exact Logic.I.
+    + destruct (Hk j) as (e' & s' & -> & He). cbn. rewrite He. reflexivity.
+  - destruct H as [[k Hk]|[k Hk]]; exists k; intros j.
+    + right. destruct (Hk j) as (e' & s' & -> & He & _). exists e, w', e', s'. auto.
+    + left. destruct (Hk j) as (e' & s' & -> & He). cbn. rewrite He. reflexivity.
+Qed.
